@@ -656,7 +656,17 @@ def finder_case(o, case, distinct):
         mem = Membership(z, (rows, cols), reg.maxdepth, cells)
         if via in ('file', 'cli'):
             mask = os.path.join(d, 'region.mim')
-            reg.save(mask)
+            # A .mim file is a pickle of the Region; every other case it is written by other means than Region.save (as
+            # another process, a copy or an rsync would).  Scratch names recur from case to case inside one worker, so
+            # anything remembered per path (a cache of loaded regions) meets a file whose content has changed.
+            if int(rng.integers(0, 2)):
+                import pickle
+                import copy as _copy
+                with open(mask, 'wb') as fh:
+                    pickle.dump(_copy.deepcopy(reg), fh, protocol=2)
+                o.count('mask_files_written_without_region_save')
+            else:
+                reg.save(mask)
         else:
             mask = reg
         try:
